@@ -142,7 +142,9 @@ def write_results():
         f.write('| change | written against | tests | silent | alarm | error | triage |\n|---|---|---|---|---|---|---|\n')
         for r in rows:
             f.write('| ' + ' | '.join(str(x).replace('|', '/') for x in r) + ' |\n')
-        f.write('\n%d changes, %d with an alarm or error still recorded.\n' % (len(rows), sum(1 for r in rows if r[4] or r[5])))
+        tp = sum(1 for r in rows if (r[4] or r[5]) and str(r[6]).startswith('TRUE POSITIVE'))
+        f.write('\n%d changes; %d with an alarm or error still recorded, of which %d are correct alarms: the change, written '
+                'against one property, breaks another one (see triage).\n' % (len(rows), sum(1 for r in rows if r[4] or r[5]), tp))
     return rows
 
 
